@@ -7,6 +7,8 @@ import CSD.Generated.Fields
 import CSD.Generated.Dispatch
 import CSD.Lemmas.PFCMeta
 import CSD.Lemmas.PFCLoad
+import CSD.Lemmas.RPDACImage
+import CSD.Lemmas.RPFCImage
 
 namespace CSD.Props.C08
 open CSD CSD.Generated
@@ -50,5 +52,25 @@ theorem models_match_source_text :
     Generated.body_PFC_load = SourceText.body_PFC_load ∧
     Generated.body_LogSequence_load = SourceText.body_LogSequence_load ∧
     Generated.body_LogSequence_save = SourceText.body_LogSequence_save := ⟨rfl, rfl, rfl, rfl⟩
+
+
+/-! ### RPDAC image -/
+
+/-- Saving the RPDAC dictionary obtained from `load` writes the image it was loaded from, byte for byte:
+`save (load (save d)) = save d` for every well-formed object (counters, grammar, rule table, DAC sequences,
+bitmap). -/
+theorem rpdac_resave_identical (d : RPDACImg.Img) (wf : RPDACImg.WF d) (henc : d.rp.encoding = 3 ∨ d.rp.encoding = 124) :
+    (RPDACImg.load 3 124 (RPDACImg.save 3 d)).map (fun r => RPDACImg.save 3 r.1) = some (RPDACImg.save 3 d) := by
+  have := RPDACImg.load_save 3 124 (by decide) d wf henc []
+  rw [List.append_nil] at this
+  rw [this]; rfl
+
+
+/-- The same for RPFC: the image of a reloaded RPFC dictionary is the image it was loaded from. -/
+theorem rpfc_resave_identical (d : RPFCImg.Img) (wf : RPFCImg.WF d) :
+    (RPFCImg.load 214 (RPFCImg.save 214 d)).map (fun r => RPFCImg.save 214 r.1) = some (RPFCImg.save 214 d) := by
+  have := RPFCImg.load_save 214 (by decide) d wf []
+  rw [List.append_nil] at this
+  rw [this]; rfl
 
 end CSD.Props.C08
